@@ -78,7 +78,67 @@ def families() -> dict[str, list]:
         "single_breakup": [BreakupMomentumSquared(s, m0, mb)],
         "single_kallen": [Kallen(s, m0, w0)],
     }
+    # rare but legitimate shapes: names with path separators / newlines / unicode / huge str;
+    # compound arguments; a non-SymPy `name` attribute (changes the printed form)
+    odd = [sp.Symbol("a/b"), sp.Symbol("../../etc/passwd"), sp.Symbol("line1\nline2"), sp.Symbol("μ_ρ⁰ "), sp.Symbol("x" * 3000)]
+    big = sp.Add(*[sp.Symbol(f"t{i}") ** (i % 5 + 1) for i in range(250)])
+    fam["odd_names"] = [Kallen(odd[0], odd[1], odd[2]), BreakupMomentumSquared(odd[3], odd[4], odd[0] - odd[1] / 2)]
+    fam["odd_names_assumptions"] = [Kallen(sp.Symbol("a/b\nc", **kw), ma, -(ma + mb) / 3) for kw in ({}, {"positive": True})]
+    fam["huge_str"] = [Kallen(big, s, m0)]
+    fam["width_named"] = [
+        EnergyDependentWidth(s, m0, w0, ma, mb, angular_momentum=0, meson_radius=1, phsp_factor=ph, name="Γ/R\n")
+        for ph in (PhaseSpaceFactor, PhaseSpaceFactorAbs)
+    ]
     return fam
+
+
+def unpicklable_expression():
+    """An expression pickle cannot serialise (a class that pickle cannot find by reference)."""
+    unevaluated = _unevaluated()
+
+    @unevaluated
+    class LocalOnly(sp.Expr):
+        a: Any
+
+        def evaluate(self) -> sp.Expr:
+            return self.a**2 + 1
+
+    return LocalOnly(sp.Symbol("x"))
+
+
+def _sym_key(s):
+    return (s.name, tuple(sorted((k, v) for k, v in s.assumptions0.items())))
+
+
+def behaves_same(got, expected) -> str | None:
+    """Beyond structural identity: the returned object must BEHAVE like `expr.doit()`.
+    Returns None or the first difference found."""
+    import pickle as _p
+
+    if not deep_equal(got, expected):
+        return "not structurally identical (types, args, symbol assumptions, non-SymPy attributes)"
+    try:
+        if sp.srepr(got) != sp.srepr(expected):
+            return "srepr differs"
+        if str(got) != str(expected):
+            return "str differs"
+        if hash(got) != hash(expected):
+            return "hash differs"
+        if sorted(map(_sym_key, got.free_symbols)) != sorted(map(_sym_key, expected.free_symbols)):
+            return "free symbols (with assumptions) differ"
+        if got.doit() != expected.doit() or not deep_equal(got.doit(), expected.doit()):
+            return "unfolding the returned object again gives something else"
+        syms = sorted(expected.free_symbols, key=lambda s: s.name)
+        point = {s: sp.Rational(3 + 2 * i, 7 + i) for i, s in enumerate(syms)}
+        if len(syms) <= 12 and got.xreplace(point) != expected.xreplace(point):
+            return "value at a rational point differs"
+        if got.subs(syms[0], sp.Symbol("zz_new")) != expected.subs(syms[0], sp.Symbol("zz_new")) if syms else False:
+            return "subs behaves differently"
+        if not deep_equal(_p.loads(_p.dumps(got)), expected):
+            return "pickle round trip of the returned object differs"
+    except Exception as ex:  # noqa: BLE001
+        return f"using the returned object raised {type(ex).__name__}: {ex}"[:200]
+    return None
 
 
 def deep_equal(a, b) -> bool:
